@@ -86,7 +86,7 @@ PROPS["C11"] = {
 }
 
 PROPS["C05"] = {
-    "modules": ["SamlVerif.Props.C05", "SamlVerif.Props.TransServe", "SamlVerif.Props.TransIdP", "SamlVerif.Props.TransIdpInit", "SamlVerif.Props.PureSaml"],
+    "modules": ["SamlVerif.Props.C05", "SamlVerif.Props.TransRegistry", "SamlVerif.Props.TransServe", "SamlVerif.Props.TransIdP", "SamlVerif.Props.TransIdpInit", "SamlVerif.Props.PureSaml"],
     "trusted_base": ["modelled, not verified: base64/inflate decoding and encoding/xml unmarshalling of the AuthnRequest (the model starts from the unmarshalled "
                      "fields; the harness sends real GET-deflate and POST encodings through NewIdpAuthnRequest + Validate)"],
     "assumptions": ["freshness is read one-sidedly (now <= IssueInstant + MaxIssueDelay), as the anchored code words it"],
@@ -157,7 +157,7 @@ PROPS["C17"] = {
 }
 
 PROPS["C19"] = {
-    "modules": ["SamlVerif.Props.C19", "SamlVerif.Props.TransServe", "SamlVerif.Props.TransSession", "SamlVerif.Props.PureSamlidp"],
+    "modules": ["SamlVerif.Props.C19", "SamlVerif.Props.TransRegistry", "SamlVerif.Props.TransServe", "SamlVerif.Props.TransSession", "SamlVerif.Props.PureSamlidp"],
     "trusted_base": ["modelled, not verified: bcrypt (symbolic: compare(H p, p') iff p = p'), JSON encoding of stored values, http.ServeMux routing, the MemoryStore (covered by C20)",
                      "'exactly one HTTP reply' is by construction in the model and measured on the real server by a counting ResponseWriter (testing)"],
     "assumptions": ["stored services have pairwise distinct entity IDs (with duplicates the registry a restart builds depends on Go map iteration order)",
@@ -209,7 +209,7 @@ PROPS["C07"] = {
 }
 
 PROPS["C08"] = {
-    "modules": ["SamlVerif.Props.C08", "SamlVerif.Props.TransEncCert", "SamlVerif.Props.PureSaml", "SamlVerif.Props.PureXmlenc"],
+    "modules": ["SamlVerif.Props.C08", "SamlVerif.Props.TransRegistry", "SamlVerif.Props.TransEncCert", "SamlVerif.Props.PureSaml", "SamlVerif.Props.PureXmlenc"],
     "trusted_base": IDP_TB + SP_TB + ["confidentiality of RSA-OAEP / AES-CBC is not claimed; 'recoverable with no other key' is tested by trying the other keys of the harness",
                                        "draw order from RandReader (responseDraws) is hand-written from identity_provider.go / xmlenc and tied by the counting-reader correspondence"],
     "assumptions": ["RandReader yields independent uniform bytes: disjoint segments of the stream are then independent (freshness is stated as disjointness of segments)"],
@@ -275,7 +275,7 @@ for pid, fns in {"C01": "parseResponse / parseAssertion / parseEncryptedAssertio
                  "C12": "samlsp Middleware.HandleStartAuthFlow (the choice of binding and location) / ServiceProvider.GetSSOBindingLocation / GetSLOBindingLocation",
                  "C13": "samlsp Middleware.HandleStartAuthFlow (the choice of binding and location)",
                  "C06": "IdentityProvider.ServeSSO (the gate before the assertion is made)",
-                 "C19": "samlidp Server.GetSession (the credential guards and the branch for requests without credentials) / IdentityProvider.ServeSSO (the gate)",
+                 "C19": "samlidp Server.GetSession (the credential guards and the branch for requests without credentials) / Server.HandlePutService / IdentityProvider.ServeSSO (the gate)",
                  "C17": "samlsp Middleware.ServeACS / CreateSessionFromAssertion (as effect traces) / CookieRequestTracker.GetTrackedRequest"}.items():
     PROPS[pid]["technique"] = TRANS_TECH.format(fns=fns)
     PROPS[pid]["trusted_base"] = list(PROPS[pid].get("trusted_base", [])) + [TRANS_TB]
